@@ -21,7 +21,7 @@ ASSUMPTIONS = [
     "for a rejected DATA frame either ACK or NAK is accepted only in so far as the reference chooses it by the reTx rule of UG101 (reTx set => ACK, else NAK)",
     "the reference receive state machine (dst/refash.HostReceiverModel) is correct",
 ]
-PROBES = ["accepted", "dup_retx", "out_of_seq", "rstack", "error", "wrap", "multi_frame_read", "split_frame_read"]
+PROBES = ["accepted", "dup_retx", "out_of_seq", "rstack", "error", "wrap", "multi_frame_read", "split_frame_read", "host_rst_outstanding"]
 
 SYMS = ("d0", "d0r", "dn", "dnr", "dp", "dpr", "ack", "nak", "rst", "rstack_sw", "rstack_po", "error")
 
@@ -76,15 +76,21 @@ def classify(up_r, wr_r, model):
     return None
 
 
-def run_chunks(rx, chunks):
-    """Feed chunks; compare with the model after every read."""
+def run_chunks(rx, chunks, rst_before=()):
+    """Feed chunks; compare with the model after every read.  rst_before: indices of reads before which the HOST writes an RST
+    (a reset request of its own that the peer has not answered - or whose answer is one of the frames of the sequence): what the peer
+    sends meanwhile is received like at any other time."""
     host = e2.SyncHost(rx)
     model = R.HostReceiverModel(rx)
     for i, c in enumerate(chunks):
+        if i in rst_before:
+            host.proto.send_reset()
         if not host.feed(c):
             return ("C04.answer", f"data_received raised {host.raised!r}"), model
         model.feed(c)
         up_r, wr_r = e2.split_streams(host.ev)
+        if rst_before:
+            wr_r = [e for e in wr_r if e != ("rst",)]
         r = classify(up_r, wr_r, model)
         if r is not None:
             return (r[0], r[1] + f" (after read {i}: {c.hex()[:60]})"), model
@@ -111,6 +117,12 @@ def run_seq(params, tape):
                 track.feed(w)
                 chunks.append(w)
             err, model = run_chunks(rx0, chunks)
+            if err is None and n <= 3:
+                # the same with a host reset request outstanding from the start (RST written, nothing else changes on the receive side)
+                err, model = run_chunks(rx0, chunks, rst_before=(0,))
+                if err is not None:
+                    err = (err[0], err[1] + " [host RST written before the sequence]")
+                probes["host_rst_outstanding"] = probes.get("host_rst_outstanding", 0) + 1
             evals += 1
             if err is not None:
                 viol.append((err[0], "seq", f"state {rx0} sequence {seq}: {err[1]}"))
@@ -199,9 +211,13 @@ def run_long(params, tape):
         chunks = [c for c in chunks if len(c) <= 1000]
         if sum(len(c) for c in chunks) != len(stream):
             chunks = frames
-        err, model = run_chunks(rx0, chunks)
+        rst_before = ()
+        if mode == 0 and rng.randrange(2):
+            rst_before = tuple(sorted({rng.randrange(len(chunks)) for _ in range(rng.randrange(1, 4))}))
+            probes["host_rst_outstanding"] = probes.get("host_rst_outstanding", 0) + 1
+        err, model = run_chunks(rx0, chunks, rst_before)
         if err is not None:
-            viol.append((err[0], "long", f"start state {rx0}, {nfr} frames {desc[:12]}...: {err[1]}"))
+            viol.append((err[0], "long", f"start state {rx0}, {nfr} frames {desc[:12]}...{' host RST before reads ' + str(rst_before) if rst_before else ''}: {err[1]}"))
         probes["accepted"] = probes.get("accepted", 0) + accepted
         sigs.add(hashlib.blake2b(stream[:4000], digest_size=8).digest())
         if sample is None:
